@@ -184,6 +184,11 @@ func c06cases(thorough bool) []c06case {
 		{"link-id-matches-href-differs", L{M{"type": "Link", "id": Carol, "href": Erin}}, L{Carol}, true},
 		{"orig-link-id-differs-href-matches", L{Erin}, L{M{"type": "Link", "id": Carol, "href": Erin}}, false},
 		{"mention-href-equal", L{M{"type": "Mention", "href": Carol}}, L{Carol}, true},
+		// an actor repeated on the Undo must not stand in for a missing co-actor of the undone activity
+		{"undo-actor-repeated-orig-two", L{Carol, Carol}, L{Carol, Dave}, false},
+		{"undo-actor-repeated-mixed-spelling", L{Carol, Emb("Person", Carol)}, L{Carol, Dave}, false},
+		{"undo-actor-repeated-three-orig-three", L{Carol, Dave, Carol}, L{Carol, Dave, Erin}, false},
+		{"orig-actor-repeated", L{Carol}, L{Carol, Carol}, true},
 	} {
 		for _, form := range []string{"embedded", "iri"} {
 			for _, n := range []int{1, 2} {
